@@ -41,7 +41,18 @@ pub fn letter(l: usize, i: usize) -> Value {
 pub fn data_a() -> Value {
     let mut m = serde_json::Map::new();
     for i in 0..8 {
-        m.insert(format!("t{}", i), json!(["tv", i]));
+        // truthy values of every kind the table names, tiny non-zero numbers included
+        let tv = match i % 8 {
+            0 => json!(["tv", i]),
+            1 => json!(5e-324),
+            2 => json!("0"),
+            3 => json!({"t": i}),
+            4 => json!(1e-20),
+            5 => json!(" "),
+            6 => json!([0]),
+            _ => json!(-1e-300),
+        };
+        m.insert(format!("t{}", i), tv);
         m.insert(format!("f{}", i), falsy(i + 2));
     }
     Value::Object(m)
